@@ -23,6 +23,10 @@ from harness.vloop import Deadlock, checkpoints, run_virtual
 T = TypeVar("T")
 
 
+class _TdBoom(Exception):
+    """raised by a generated teardown callback"""
+
+
 def _truth(tag: Any) -> bool:
     # every third resource value is an object whose truth value is False (an empty registry, a closed
     # handle ...): a resource is what was published, whatever bool() says about it
@@ -345,6 +349,8 @@ class _Gen:
                 else:
                     td.append(self.op_get(task, ctx=idx))
             op["td"] = td
+        if idx != 0 and self.d.pct(12):
+            op["td_raises"] = True  # one of its teardown callbacks raises: the block is left by that exception
         if idx != 0 and not self.m.ctxs[idx].children and self.d.pct(20):
             # the context object is dropped after it has been left while a late listener still holds its
             # resource_added signal; contexts created afterwards may reuse its address
@@ -1082,6 +1088,11 @@ class Interp:
             raise HarnessError(f"leave {idx} violates stack discipline {task.stack}")
         rc = self.real[idx]
         td_ops = op.get("td") if op else None
+        if op and op.get("td_raises"):
+            def boom() -> None:
+                raise _TdBoom(f"teardown callback of context #{idx}")
+
+            rc.add_teardown_callback(boom)
         if td_ops and not self.diverged:
             self.labels.add("ops-during-teardown")
 
@@ -1096,14 +1107,22 @@ class Interp:
         try:
             await rc.__aexit__(None, None, None)
         except Exception as exc:
-            self.disc(["crash"], "leave-raises", f"leaving context #{idx} raised {short_exc(exc)}")
-            self.diverged = True
-            self.m.ctxs[idx].state = "closed"
-            task.stack.pop()
-            if idx in self.streams:
-                cm, _ = self.streams.pop(idx)
-                await cm.__aexit__(None, None, None)
-            return
+            from harness.core import flatten_exc
+
+            leaves = flatten_exc(exc)
+            if op and op.get("td_raises") and leaves and all(isinstance(l, _TdBoom) for l in leaves):
+                # left by the exception of its own teardown callback: closed all the same, and everything that
+                # follows (implicit parents, views, lookups) goes on as after any other way of leaving
+                self.labels.add("left-by-raising-teardown")
+            else:
+                self.disc(["crash"], "leave-raises", f"leaving context #{idx} raised {short_exc(exc)}")
+                self.diverged = True
+                self.m.ctxs[idx].state = "closed"
+                task.stack.pop()
+                if idx in self.streams:
+                    cm, _ = self.streams.pop(idx)
+                    await cm.__aexit__(None, None, None)
+                return
         self.m.ctxs[idx].state = "closed"
         task.stack.pop()
         await self.drain(idx)  # (a signal keeps working after its context has been closed)
